@@ -46,7 +46,10 @@ SCENARIOS = {
                    [_alloc('proid/x', '_default', [('proid.web*', 1)], mem='1G', cpu='100%',
                            disk='1G', maxutil=1, adj=10),
                     _alloc('proid/z', 'pB', [('proid.db*', 5)], mem='2G', cpu='200%', disk='2G',
-                           maxutil=2)]],
+                           maxutil=2)],
+                   # the first document with nothing but the assignment priorities changed
+                   [_alloc('proid/x', '_default', [('proid.web*', 9)]),
+                    _alloc('proid/z', 'pB', [('proid.db*', 2)])]],
         aprofiles=[_man('proid.web', identity_group='proid.g1', data_retention_timeout='2s'),
                    _man('proid.db', 2, 2, 2, lease='3s'),
                    _man('other.app', data_retention_timeout='0s'),
@@ -59,7 +62,11 @@ SCENARIOS = {
                         affinity_limits={'rack': 1, 'server': 1}, data_retention_timeout='2s'),
                    # a trait no server of the cell offers (and the cell does not know):
                    # never placeable, whatever is re-loaded
-                   _man('other.app', 1, 1, 1, traits=['nosuch'])],
+                   _man('other.app', 1, 1, 1, traits=['nosuch']),
+                   # a priority of its own (not the assignment's): its place among the
+                   # other proid.web instances moves when the assignment priority changes
+                   dict(name='proid.web', demand=[512, 0, 512], affinity='web', priority=5,
+                        data_retention_timeout='1s')],
         groups={'proid.g1': 3},
         apps=['a1', 'a2', 'a3', 'a4']),
     # (filled in below) 'hetero': base + instances that share an affinity NAME but
